@@ -1,5 +1,5 @@
 (* Correspondence case and checker for C14 (sampler selection by destination). *)
-From Refinery Require Export Lib.Base Model.TraceKey Model.SamplerSel.
+From Refinery Require Export Lib.Base Lib.Strs_samp Model.SamplerSel.
 
 (* one destination: what the real code answered for it *)
 Record eobs := {
